@@ -44,6 +44,14 @@ def run(tier):
         for n in (0, 1, 2):
             body = F.impl_item(imps[0], "sph_j%d" % n)
             float_forms[(fl, n)] = analyse(chk, F, body, fl, n, orders=[0], label=fl)
+    # the two float instances are the same macro body: same switch (the machine epsilon of their OWN type), same arms
+    for n in (0, 1, 2):
+        f32, f64 = float_forms.get(("f32", n)), float_forms.get(("f64", n))
+        if f32 and f64 and "guard" in f32 and "guard" in f64:
+            (l1, o1, r1), (l2, o2, r2) = f32["guard"], f64["guard"]
+            chk.ob("sph|f32|j%d|sibling|guard" % n, o1 == o2 and equal(l1, l2) and equal(r1, r2),
+                   "the f32 and f64 instances switch at the machine epsilon of their own float type", "src/lib.rs",
+                   found="f32: %s %s %s" % (l1.show(), o1, r1.show()), required="f64: %s %s %s (EPS = epsilon of the instance's type)" % (l2.show(), o2, r2.show()))
     for ty in TYPES:
         imp = algebra.dualnum_impl(F, ty)
         for n in (0, 1, 2):
@@ -55,6 +63,12 @@ def run(tier):
             # sibling agreement with the float implementation
             ff = float_forms.get(("f64", n))
             if forms and ff:
+                if "guard" in forms and "guard" in ff:
+                    (l1, o1, r1), (l2, o2, r2) = forms["guard"], ff["guard"]
+                    chk.ob("sph|%s|j%d|sibling|guard" % (ty, n), o1 == o2 and equal(l1, l2) and equal(r1, r2),
+                           "dual and plain-float implementation switch between series and closed form under the same condition "
+                           "(machine epsilon of the float type)", body_loc(F, body),
+                           found="%s %s %s" % (l1.show(), o1, r1.show()), required="%s %s %s (float instance)" % (l2.show(), o2, r2.show()))
                 for arm in ("series", "closed"):
                     if arm in forms and arm in ff:
                         ok = equal(forms[arm], ff[arm])
@@ -132,7 +146,9 @@ def analyse(chk, F, body, who, n, orders, label):
     chk.ob(key0 + "|guard-symmetric", sym, "the switch between series and closed form is symmetric in the sign of the argument "
            "(the function has a parity; negative arguments must not be routed to the series)", loc,
            found="%s %s %s" % (lhs.show(), op, rhs.show()), required="|x| %s bound" % op)
-    h = eval_poly(rhs, {("c", "EPS"): EPS_VALUE})
+    h = eval_poly(rhs, {("c", "EPS"): EPS_VALUE, ("c", "F::MIN_POSITIVE"): Fr(1, 2 ** 1022), ("c", "EPS_f64"): Fr(1, 2 ** 52),
+                        ("c", "EPS_f32"): Fr(1, 2 ** 23)})
+    forms["guard"] = guard
     # ---- closed form == definition
     want = definition(n, XR)
     chk.ob(key0 + "|closed-form", equal(forms["closed"], want), "the closed-form arm is the definition of j%d" % n, loc,
